@@ -21,6 +21,7 @@ def run(chk):
     clones.rule_unreachable(chk, 'U1', ('hash',), floor=20)
     clones.rule_insert_ladders(chk, 'N6', ('hash',), floor=100)
     clones.rule_dup_stores(chk, 'W6', ('hash',), floor=1)
+    clones.rule_byte_order(chk, 'N7', ('hash',), floor=20)
     from . import twins as _tw
     _tw.rule_copy_siblings(chk, cf.PROGRAM[0] or cf.Program(), 'X5', floor=100)
     _tw.rule_field_copies(chk, cf.PROGRAM[0] or cf.Program(), 'X4', floor=40)
